@@ -344,7 +344,12 @@ fn cross_group<C: MlsConfig>(rng: &mut Rng, mk: Mk<C>, out: &mut Out) {
         }
     }
     let e2 = g2a.current_epoch();
-    let e = rng.range(e2.saturating_sub(4).max(1), e2 - 1); // a past epoch of group 2 inside the retention window
+    let mut e = rng.range(e2.saturating_sub(4).max(1), e2 - 1); // a past epoch of group 2 inside the retention window
+    // often the epoch number that group 1 is in right now (the resolver's current-epoch shortcut must compare the group id too)
+    let k1cur = w.group(0).current_epoch();
+    if rng.chance(1, 2) && k1cur >= e2.saturating_sub(4).max(1) && k1cur < e2 {
+        e = k1cur;
+    }
     let gid2 = g2a.group_id().to_vec();
     let committer = rng.below(2) as usize;
     let receiver = 1 - committer;
@@ -380,7 +385,7 @@ fn cross_group<C: MlsConfig>(rng: &mut Rng, mk: Mk<C>, out: &mut Out) {
     } else if w.group(0).epoch_authenticator().unwrap().as_bytes() != w.group(1).epoch_authenticator().unwrap().as_bytes() {
         out.fails.push("cross-group resumption PSK: members accepted but disagree".into());
     }
-    out.cover.insert(format!("cross-group:pending-collision={}", (e < k1now) as u8));
+    out.cover.insert(format!("cross-group:pending-collision={}:current-epoch-collision={}", (e < k1now) as u8, (e + 1 == k1now) as u8));
 }
 
 /// value level: the PSK secret under variations of value / id / nonce / order / count
